@@ -887,6 +887,8 @@ class LineWorld:
                 if d['name'] in self.dev:
                     return False
             return True
+        if k == 'reginline':
+            return op[1] in self.dev
         if k in ('reg', 'unreg', 'addsensor'):
             return op[1] in self.dev and op[2] in self.dev
         if k in ('addres', 'cleardata', 'abort'):
@@ -1171,6 +1173,10 @@ class LineWorld:
         elif k == 'reg':
             r = self.dev[op[1]].register_object(self.dev[op[2]], None if op[3] == 'default' else OverrideAction(hub))
             hub.tlog.append(('reg', op[1], op[2], op[3], bool(r)))
+        elif k == 'reginline':
+            # an object registered on the spot: the scheduler holds the only reference to it
+            r = self.dev[op[1]].register_object(SchedObj(op[2]), None)
+            hub.tlog.append(('reg', op[1], op[2], 'default', bool(r)))
         elif k == 'unreg':
             r = self.dev[op[1]].unregister_object(self.dev[op[2]])
             hub.tlog.append(('unreg', op[1], op[2], bool(r)))
